@@ -516,7 +516,8 @@ class ProgGen:
             rhs = self.r.choice(["0.5", "2.0", "1.5"]) if op == "*=" else (self.e_float(2) if self.chance(0.6) else self.int_lit())
         else:
             op = "+="
-            rhs = self.str_lit() if self.chance(0.7) else self.e_str(2)
+            # inside loops only literals are appended (s += s doubles the string on every iteration)
+            rhs = self.str_lit() if (looping or self.chance(0.7)) else self.e_str(2)
         self.emit(f"{v.name} {op} {rhs}")
         self.feat("augassign-" + v.type)
         if self.chance(0.5):
@@ -900,7 +901,11 @@ class ProgGen:
         # inference does not run for expression statements - known finding), so non-int parameters of
         # such helpers are annotated in the clean profile
         ann = {"int": "int", "float": "float", "str": "str"}
-        if ret is None and not self.h("stmt-call-types"):
+        unannotated_ok = (ret is None and self.h("stmt-call-types")) or (ret is not None and self.h("param-retype"))
+        if not unannotated_ok:
+            # non-int parameters are annotated in the clean profile: an unannotated parameter is typed int by the first
+            # parse of the body and re-typed by later uses (known findings KF-stmt-call-types / KF-param-retype-in-body);
+            # unannotated float/str parameters are exercised by the poly-call family of C02
             sig = ", ".join(p if t == "int" else f"{p}: {ann[t]}" for p, t in zip(pnames, ptypes))
             if any(t != "int" for t in ptypes):
                 self.feat("annotated-params")
@@ -917,7 +922,7 @@ class ProgGen:
         # functions see only their parameters (and the serial monitor / leds)
         # an unannotated non-int parameter that the body re-assigns is typed inconsistently by the transpiler (known
         # finding KF-param-retype-in-body): such parameters are read-only in the clean profile
-        annotated = ret is None and not self.h("stmt-call-types")
+        annotated = not unannotated_ok
         self.scopes = [{p: Var(p, t, scope="function", ro=(t != "int" and not annotated and not self.h("param-retype")))
                         for p, t in zip(pnames, ptypes)}]
         saved_loop, saved_main = self.loop_depth, self.in_main_loop
